@@ -27,13 +27,13 @@ NATIVE_PY = os.environ.get('PYVC_NATIVE_PY', '/venv/bin/python')
 MODULES = {
     'C15': ['contracts.c15'],
     'C19': ['contracts.c19'],
-    'C16': ['contracts.c16'],
+    'C16': ['contracts.c16', 'contracts.c15'],
     'C13': ['contracts.c13'],
     'C10': ['contracts.c10'],
     'C11': ['contracts.c11'],
     'C08': ['contracts.pit_layers'],
     'C01': ['contracts.pit_layers'],
-    'C04': ['contracts.pit_layers', 'contracts.wrappers'],
+    'C04': ['contracts.pit_layers', 'contracts.wrappers', 'contracts.c15'],
     'C12': ['contracts.pit_layers', 'contracts.wrappers', 'contracts.c16', 'contracts.c13', 'contracts.c10'],
     'C05': ['contracts.mps_layers', 'contracts.wrappers'],
     'C02': ['contracts.mps_layers'],
